@@ -555,6 +555,10 @@ def scenario(c, idx):
             from autofit.database import open_database
             session = open_database(db2)
             for f in c["fits"]:
+                if f.get("n_analyses", 1) > 1:
+                    # combined analyses through a session create their own kind of child fits: not compared
+                    dr["fits_run"].append({"skipped": True})
+                    continue
                 dr["fits_run"].append(run_fit(f, session=session))
             session.commit()
             session.close()
